@@ -86,14 +86,20 @@ def op_file_write_all(I, st, fut):
     alts = []
     if faults: alts.append((B('write_fail'), _ioerr(), _ev(('fs.write_failed', key))))
     if crash: alts.append((B('crash_after_write'), CRASH, lambda s2: (_set(key, full)(s2), s2.events.append(('fs.write', key, content)), s2.events.append(('crash', 'after write ' + key)))))
-    alts.append((None, mk_ready(mk_ok(unit())), _set(key, full, ('fs.write', key, content))))
+    def ok(s2):
+        # tokio::fs::File buffers the data and writes it on the blocking pool: write_all returning Ok does not mean the bytes are in the file yet
+        _set(key, full, ('fs.write', key, content))(s2)
+        s2.env['pending'] = dict(s2.env.get('pending') or {}); s2.env['pending'][key] = True
+    alts.append((None, mk_ready(mk_ok(unit())), ok))
     return Forks(alts)
 
 def op_file_flush(I, st, fut):
-    faults, crash = _flags(st)
+    faults, crash = _flags(st); key = fut.d.get('key')
+    def done(s2):
+        s2.env['pending'] = dict(s2.env.get('pending') or {}); s2.env['pending'].pop(key, None); s2.events.append(('fs.flush', key))
     alts = []
     if faults: alts.append((B('flush_fail'), _ioerr(), None))
-    alts.append((None, mk_ready(mk_ok(unit())), None))
+    alts.append((None, mk_ready(mk_ok(unit())), done))
     return Forks(alts)
 
 def m_fs_write(I, st, fr, callee, args, dty, dest, ret_bb):
@@ -114,7 +120,10 @@ def m_file_write_all(I, st, fr, callee, args, dty, dest, ret_bb):
     h = _handle(I, st, args[0]); v = deref(I, st, args[1])
     while isinstance(v, Ref): v = I.deref_load(st, v)
     return leaf_future('file_write_all', key=h.d['key'], content=v.d.get('content') if isinstance(v, Obj) else v)
-def m_file_flush(I, st, fr, callee, args, dty, dest, ret_bb): return leaf_future('file_flush')
+def m_file_flush(I, st, fr, callee, args, dty, dest, ret_bb):
+    try: key = _handle(I, st, args[0]).d['key']
+    except Stuck: key = None
+    return leaf_future('file_flush', key=key)
 def m_path_with_extension(I, st, fr, callee, args, dty, dest, ret_bb):
     p = path_key(I, st, args[0]); e = path_key(I, st, args[1])
     stem = p.rsplit('.', 1)[0] if '.' in p.rsplit('/', 1)[-1] else p
